@@ -29,6 +29,9 @@ type CaseResult struct {
 	OutFile  *ast.File
 	Plans    map[string]*outmon.FuncPlan // by FuncPlan.Key()
 	PlanList []*outmon.FuncPlan
+	// Via: "" (cwd = package dir, relative path) | "symlink-abs" (absolute path that runs through a
+	// symbolic link to the module root, cwd outside) | "symlink-cwd" (cwd reached through that link)
+	Via string
 }
 
 // Batch is a module on disk holding many scenarios.
@@ -68,7 +71,21 @@ func RunCase(e *core.Env, c *CaseResult, typecheck bool) {
 	dir := filepath.Join(c.Root, s.PkgRel)
 	c.OutPath = filepath.Join(c.Root, s.OutRel())
 	_ = os.Remove(c.OutPath)
-	c.Run = e.Run(core.RunSpec{Args: []string{filepath.Base(s.Setup)}, Dir: dir, WallSec: 120})
+	spec := core.RunSpec{Args: []string{filepath.Base(s.Setup)}, Dir: dir, WallSec: 120}
+	if c.Via != "" {
+		link := c.Root + "-lnk"
+		if _, err := os.Lstat(link); err != nil {
+			_ = os.Symlink(filepath.Base(c.Root), link)
+		}
+		switch c.Via {
+		case "symlink-abs":
+			spec.Args, spec.Dir = []string{filepath.Join(link, s.Setup)}, filepath.Dir(c.Root)
+		case "symlink-cwd":
+			spec.Dir = filepath.Join(link, s.PkgRel)
+			spec.Env = []string{"PWD=" + spec.Dir}
+		}
+	}
+	c.Run = e.Run(spec)
 	if c.Run.Exit != 0 {
 		return
 	}
